@@ -7,7 +7,7 @@ from sqlparse import lexer, tokens as T
 RULE = ('grammar scripts (comment-free) rendered once, then re-spelled: every whitespace run between tokens and inside multi-word keywords replaced by another non-empty run of blanks/tabs/line breaks, '
         'every keyword re-cased; compared: statement count, get_type, tree shape (classes, nesting, significant leaves with keywords normalised); non-trivial = distinct (script, respelling) pair whose texts differ')
 ASSUMPTIONS = ['lexical clause (multi-word keywords are one token for every inner whitespace and casing) sampled through S-LEX on the respelled texts']
-PARTIAL = ['per-pass simulation theorems for the grouping passes are not proved; tree-shape invariance is established by the metamorphic oracle on the real code and S-TREE on both spellings']
+PARTIAL = ['splitter: view-invariance theorem; grouping: respell_group (all 25 passes commute with every admissible re-spelling: keyword case, whitespace inside multi-word keywords, values of existing whitespace tokens) is a theorem; changing the NUMBER or TYPE of whitespace tokens (one token per whitespace character, blank vs line break) is established by the metamorphic oracle on the real code and S-TREE on both spellings']
 WS = [' ', '  ', '\t', '\n', '\r\n', ' \n ', '\n\n', '\t ']
 
 
